@@ -154,7 +154,7 @@ func VString(v *ast.Value) string { panic("ghost") }
 //@ loop 0 invariant[frame-fields] forallT(T, string, forallT(n, string, keptOrNew(t, T, n, url))) @using frame-fields, wf
 //@ loop 0 invariant[flags] forallT(T, string, has(t, T) ==> t[T].IsImplementsNode == (old(has(t, T) && t[T].IsImplementsNode) || (seen(T) && implNode(schema, T)))) @using flags, flag, wf
 //@ loop 0 invariant[types] forallT(T, string, old(has(t, T)) ==> has(t, T))
-//@ loop 1 invariant[wf] wfTM(t) && t != nil && has(schema, k) && v == schema[k] && v.Kind == ast.Object && !hasprefix(k, "__") && iin == implNode(schema, k)
+//@ loop 1 invariant[wf] wfTM(t) && t != nil && has(schema, k) && v == schema[k] && v.Kind == ast.Object && !hasprefix(k, "__") && iin == implNode(schema, k) @using wf
 //@ loop 1 invariant[routes] forallT(T, string, seen(T) && T != k ==> forall(i, 0, len(schema[T].Fields), declaresAt(schema, T, i) ==> routed(t, T, schema[T].Fields[i].Name) && route(t, T, schema[T].Fields[i].Name) == url)) @using routes, frame, wf
 //@ loop 1 invariant[current] forall(i, 0, it, declaresAt(schema, k, i) ==> routed(t, k, schema[k].Fields[i].Name) && route(t, k, schema[k].Fields[i].Name) == url) @using current, set, frame, wf
 //@ loop 1 invariant[frame-types] forallT(T, string, !(seen(T) && objDecl(schema, T)) ==> forallT(n, string, sameRoute(t, T, n))) @using frame-types, frame, wf
